@@ -26,7 +26,13 @@ RULE = (
     "octet payload that fills an HRNP packet), HDAP checksum steered to 0x00 / 0xFF and HRNP checksum steered to 0x0000 / "
     "0x0001 / 0xFFFE / a second end-around carry (one octet / the packet number solved on the reference), HSTRP option "
     "lists: none, each type alone, the same option 2x / 6x, 16 options, option data of 0/1/127/128/255 octets; all 32 "
-    "HSTRP type-bit combinations and all HRNP control opcodes in 'transport'.  (b) "
+    "HSTRP type-bit combinations and all HRNP control opcodes in 'transport'; characters / octets that codecs and framers "
+    "treat specially: TMP text with U+FEFF / U+FFFE / U+FFFD / U+FFFF / NUL / blanks / TAB / CR / LF / CRLF / characters whose "
+    "UTF-16-LE image contains 03, 7E, 7E 04, '2B', the HDAP service octets / non-BMP characters - alone, at the start, in the "
+    "middle, at the end, doubled, with option data behind; short data / option data / raw payload / alias / raw value / config / "
+    "HSTRP option data with BOMs (FF FE, FE FF, EF BB BF), 00 00, the HDAP end octet, HRNP '7E 04', HSTRP '2B', HDAP service "
+    "octets and a whole HDAP header - alone, at the start, at offset >= 12, near the end, repeated; constant fill; a short "
+    "record repeated (the same specials are mixed into the Hypothesis strategies).  (b) "
     "Hypothesis, one strategy per implemented opcode (RRS 5, LP 2, TMP 8, RCP 17 incl. the pass-through 'UnknownService'), "
     "in-range fields only (radio ids 0..2^24-1, RCP ids 0..2^32-1, request ids 0..2^32-1, subnet 0..255, every defined enum "
     "member, UTF-16 text, option data 0..n octets, GPS: valid flag, time/date or the all-NUL form, ddmm.mmmm / dddmm.mmmm on the "
@@ -83,8 +89,9 @@ OPS = {"RRS": RRS_OPS, "LP": LP_OPS, "TMP": TMP_OPS, "RCP": RCP_OPS}
 #  (a) every field the case GENERATED is looked up on the parsed object under the attribute name the constructor stores it
 #      under (expected_pdu_fields / expected_hrnp_fields / expected_hstrp_fields, recursively for RadioIP / GPSData / packet
 #      type / options / the nested PDU) and must equal the generated value;
-#  (b) additionally every public attribute (instance attributes, slots, properties) present on BOTH the built and the parsed
-#      object whose built value is not None must be equal (flags, derived services, defaults), recursively.
+#  (b) additionally every public attribute (instance attributes, slots, properties) that is a CONSTRUCTOR PARAMETER of the class
+#      (inspect.signature(cls.__init__)), is present on BOTH the built and the parsed object and whose built value is not None
+#      must be equal (flags, defaults of parameters the builder did not pass), recursively.
 # Attributes that are None or absent on the built object (diagnostics such as the source octets of a parsed object), private
 # names and callables are not fields.  An attribute missing on one side is skipped and noted (SKIPPED -> evidence classes),
 # never a failure.
@@ -159,11 +166,31 @@ def first_diff(a, b, path="$"):
     return None if (type(a) is type(b) and a == b) else (path, a, b)
 
 
+def ctor_params(cls) -> set:
+    """names a caller can pass to the constructor: only these count as fields in the generic comparison, everything else an
+    object carries is derived / diagnostic and is compared by explicit clauses only"""
+    import inspect
+
+    try:
+        return {n for n in inspect.signature(cls.__init__).parameters if n != "self"}
+    except (TypeError, ValueError):
+        return set()
+
+
+def field_dump(o):
+    """dump restricted to constructor-parameter attributes (recursively) - the state a caller set"""
+    if _is_leaf(o) or isinstance(o, (list, tuple, dict)):
+        return dump(o)
+    params = ctor_params(type(o))
+    return {"__class__": type(o).__name__, **{k: field_dump(v) for k, v in public_attrs(o).items() if k in params}}
+
+
 def compare_common(clause: str, parsed, built, path="$", ignore=()):
-    """rule (b): attributes present on both sides whose built value is not None"""
+    """rule (b): constructor-parameter attributes present on both sides whose built value is not None"""
     pa, ba = public_attrs(parsed), public_attrs(built)
+    params = ctor_params(type(built))
     for k, bv in ba.items():
-        if k in ignore or bv is None:
+        if k in ignore or bv is None or k not in params:
             continue
         if k not in pa:
             SKIPPED.add(f"{type(built).__name__}.{k}")
@@ -475,7 +502,7 @@ def oracle_pdu(case):
 
     # ---- bare PDU
     pdu = call(build_pdu, case, clause="build_no_exception")[1]
-    built = dump(pdu)
+    built = field_dump(pdu)
     frame = call(pdu.as_bytes, clause="serialise_no_exception")[1]
     if not isinstance(frame, bytes):
         raise Fail("as_bytes_returns_bytes", type(frame).__name__, "bytes")
@@ -594,7 +621,7 @@ def _drain_skipped(sub: str, t):
 
 
 def _unchanged(clause: str, obj, before):
-    d = first_diff(dump(obj), before)
+    d = first_diff(field_dump(obj), before)
     if d:
         raise Fail(clause, observed={"path": d[0], "now": d[1]}, expected={"path": d[0], "before": d[2]})
 
@@ -693,15 +720,18 @@ def _strategies():
     S[("LP", "StandardReport")] = st.fixed_dictionaries({"request_id": u32, "ip": ip, "result": names(lp.LocationProtocolResultCodes), "gps": gps})
 
     # ---- TMP
-    option = st.one_of(st.none(), st.none(), st.just(""), hexb(1, 12), hexb(0, 40))
+    marked = lambda mx: st.builds(lambda a, m, b: (a + bytes.fromhex(m) + b)[:mx].hex(), st.binary(max_size=16), st.sampled_from(SPECIAL_OCTETS), st.binary(max_size=8))
+    option = st.one_of(st.none(), st.none(), st.just(""), hexb(1, 12), hexb(0, 40), marked(40))
     for op in TMP_OPS:
         f = {"confirmed": st.booleans(), "option": option, "request_id": u32, "dst": ip}
         if op not in ("SendGroupMessageAck", "GroupShortDataAck"):
             f["src"] = ip
         if op in ("SendPrivateMessage", "SendGroupMessage"):
-            f["text"] = st.one_of(st.text(max_size=40), st.text(alphabet=st.characters(min_codepoint=32, max_codepoint=126), max_size=120))
+            plain = st.one_of(st.text(max_size=40), st.text(alphabet=st.characters(min_codepoint=32, max_codepoint=126), max_size=120))
+            f["text"] = st.one_of(plain, plain, st.builds(lambda a, c, b: a + c + b, st.text(max_size=8), st.sampled_from(SPECIAL_CHARS), st.text(max_size=8)),
+                                  st.lists(st.sampled_from(SPECIAL_CHARS + ["a", "Z"]), max_size=8).map("".join))
         elif op in ("PrivateShortData", "GroupShortData"):
-            f["short"] = hexb(0, 60)
+            f["short"] = st.one_of(hexb(0, 60), hexb(0, 60), marked(60))
         else:
             f["result"] = names(tmp.TMPResultCodes)
         S[("TMP", op)] = st.fixed_dictionaries(f)
@@ -711,7 +741,7 @@ def _strategies():
     result = names(rcp.RCPResult)
     call_type = names(rcp.RCPCallType)
     R = {
-        "UnknownService": {"raw_opcode": u16.filter(lambda v: v not in defined).map(lambda v: v.to_bytes(2, "little").hex()), "raw_payload": hexb(0, 64)},
+        "UnknownService": {"raw_opcode": u16.filter(lambda v: v not in defined).map(lambda v: v.to_bytes(2, "little").hex()), "raw_payload": st.one_of(hexb(0, 64), hexb(0, 64), marked(64))},
         "CallRequest": {"call_type": call_type, "target_id": rid32},
         "CallReply": {"result": result},
         "RepeaterBroadcastTransmitStatus": {"mode": names(rcp.RepeaterMode), "status": names(rcp.RepeaterStatus), "service": names(rcp.RepeaterServiceType),
@@ -723,7 +753,7 @@ def _strategies():
         "BroadcastStatusConfigurationRequest": {"config": st.one_of(st.integers(0, 6), u8).flatmap(lambda n: st.binary(min_size=2 * n, max_size=2 * n).map(lambda b, n=n: (bytes([n]) + b).hex()))},
         "BroadcastStatusConfigurationReply": {"result": result},
         "SendTalkerAliasRequest": {"call_type": call_type, "sender_id": rid32, "target_id": rid32, "alias_format": names(TalkerAliasDataFormat),
-                                   "alias": st.one_of(hexb(0, 31), hexb(0, 255), hexb(255, 255))},
+                                   "alias": st.one_of(hexb(0, 31), hexb(0, 255), hexb(255, 255), marked(255))},
         "SendTalkerAliasReply": {"result": result, "call_type": call_type, "sender_id": rid32, "target_id": rid32},
         "ZoneAndChannelOperationRequest": {"raw_payload": hexb(5, 5)},
         "ZoneAndChannelOperationReply": {"raw_payload": hexb(12, 12)},
@@ -789,6 +819,12 @@ def classify(case):
     if p == "TMP":
         cls.append("tmp_option_" + ("none" if f["option"] is None else "empty" if f["option"] == "" else "data"))
         nt = nt or f["confirmed"] or f["option"] is not None or bool(f.get("text") or f.get("short"))
+        tx = f.get("text")
+        if tx:
+            if tx[0] in "\ufeff\ufffe":
+                cls.append("text_starts_with_bom")
+            elif any(c in tx for c in "\ufeff\ufffe\ufffd\x00\x03\u047e\u4232\r\n") or tx != tx.strip():
+                cls.append("text_with_special_character")
     if p == "LP" and op == "StandardReport":
         s = f["gps"]["speed"]
         cls.append("gps_speed_" + ("zero" if s == 0 else "3_chars" if speed_text_len(s) == 3 else "over_3_chars"))
@@ -801,6 +837,9 @@ def classify(case):
     cls.append(f"hstrp_options_{len(case['hstrp']['options'])}")
     if case["rel"]:
         cls.append("reliable")
+    blob = "".join(str(f.get(k) or "") for k in ("short", "option", "raw_payload", "alias"))
+    if any(m in blob for m in ("7e04", "3242", "fffe", "efbbbf")):
+        cls.append("octets_with_frame_marker_or_bom")
     return nt, cls
 
 
@@ -1010,6 +1049,73 @@ def _int_variants(case):
                 yield "flag", _with(_with(case, ("f", "confirmed"), conf), ("f", "option"), opt)
 
 
+# characters / octets that codecs and framers treat specially (ROUND5 A.2, A.4)
+SPECIAL_CHARS = [
+    "\ufeff", "\ufffe", "\ufffd", "\uffff", "\x00", " ", "  ", "\t", "\r", "\n", "\r\n",
+    "\x03", "\u0300", "\u0303",  # UTF-16-LE images 03 00 / 00 03 / 03 03 (HDAP end octet)
+    "~", "\u7e00", "\u7e7e", "\u047e",  # 7e 00 / 00 7e / 7e 7e / 7e 04 (HRNP header + version)
+    "\u4232",  # 32 42 = "2B" (HSTRP header)
+    "\x09", "\u0900", "\x89", "\u8909", "\x02", "\x08", "\x11", "\u9111",  # HDAP service octets, plain and with the reliable bit
+    "\U0001F600", "\U0010FFFF",
+]
+SPECIAL_OCTETS = ["fffe", "feff", "efbbbf", "00", "0000", "03", "0303", "7e", "7e04", "7e0400", "3242", "324200", "02", "82", "08", "88", "09", "89", "11", "91",
+                  "0980a1", "ff", "ffff"]
+
+
+def special_texts():
+    out = []
+    for c in SPECIAL_CHARS:
+        out += [c, c + "abc", "ab" + c + "cd", "abc" + c, c + c, c + "abc" + c]
+    return out
+
+
+def special_octets(rng, max_len: int, min_len: int = 0):
+    """marker octets alone, at the start, in the middle (offset >= 12 where it fits), near the end; constant fill; a short record
+    repeated"""
+    out = []
+    for h in SPECIAL_OCTETS:
+        m = bytes.fromhex(h)
+        fill = rng.randbytes(24)
+        for v in (m, m + fill[:5], fill[:3] + m + fill[:3], fill[:13] + m + fill[:6], fill[:20] + m, m + fill[:9] + m, m * 4):
+            if min_len <= len(v) <= max_len:
+                out.append(v.hex())
+    for v in (b"\x00" * 16, b"\xff" * 16, b"\x03" * 16, b"\x7e\x04" * 8, bytes.fromhex("0a000001") * 4, rng.randbytes(5) * 5):
+        if min_len <= len(v) <= max_len:
+            out.append(v.hex())
+    return out
+
+
+def _special_variants(rng, E, case):
+    p, op, f = case["proto"], case["op"], case["f"]
+    if "text" in f:
+        for tx in special_texts():
+            yield "text_special", _with(case, ("f", "text"), tx)
+        for tx in ("\ufeffabc", "ab\ufeff", "\x00", "\u047e\x03"):  # ... also with option data behind the text
+            yield "text_special", _with(_with(case, ("f", "text"), tx), ("f", "option"), "fffe")
+    for k, mx, mn in (("short", 64, 0), ("option", 64, 0), ("raw_payload", 64, 0), ("alias", 64, 0)):
+        if k in f and not (p == "RCP" and op.startswith("ZoneAndChannel")):
+            for v in special_octets(rng, mx, mn):
+                yield "octets_special", _with(case, ("f", k), v)
+    if op == "ZoneAndChannelOperationRequest" or op == "ZoneAndChannelOperationReply":
+        n = 5 if op.endswith("Request") else 12
+        for v in special_octets(rng, n, 1):
+            yield "octets_special", _with(case, ("f", "raw_payload"), (bytes.fromhex(v) + bytes(n))[:n].hex())
+    if "raw_value" in f:
+        for v in ("fffe0000", "0000fffe", "7e040003", "32420003", "03030303", "00000000", "ffffffff", "efbbbf00"):
+            yield "octets_special", _with(case, ("f", "raw_value"), v)
+    if "config" in f:
+        for v in special_octets(rng, 16, 2):
+            b = bytes.fromhex(v)
+            b = b[: len(b) // 2 * 2]
+            yield "octets_special", _with(case, ("f", "config"), (bytes([len(b) // 2]) + b).hex())
+    # marker octets inside HSTRP option data
+    for v in ("03", "7e04", "3242", "fffe", "0980", "0000"):
+        c = _with(case, ("hstrp", "options"), [["DeviceID", v + "00"], ["ChannelID", v]])
+        c["hstrp"]["flags"]["have_options"] = True
+        c["hstrp"]["flags"]["is_heartbeat"] = False
+        yield "octets_special", c
+
+
 def _length_variants(rng, E, case):
     p, op, f = case["proto"], case["op"], case["f"]
     rb = lambda n: rng.randbytes(n).hex()
@@ -1161,6 +1267,7 @@ def boundary_cases_pdu(rng, E, proto, op):
         yield "background", base
         yield from _int_variants(base)
         yield from _length_variants(rng, E, base)
+        yield from _special_variants(rng, E, base)
         yield from _checksum_variants(base)
         yield from _option_variants(rng, base)
 
